@@ -1553,11 +1553,53 @@ func runR45(c *Ctx) {
 
 func runR46(c *Ctx) {
 	p := c.P
-	fn := p.anchorEnumBuiltInFilter()
-	if fn == nil {
+	// every function of the package that receives the boolean index and reads the strict flag takes part: the
+	// built-in filter itself and helpers the decision was moved into (filterAbsentValue, firstUndeclared's caller)
+	var cands []*ssa.Function
+	for _, f := range p.FuncsIn("internal/ecolumn") {
+		hasBool, readsStrict := false, false
+		for _, prm := range f.Params {
+			if isBoolIndex(prm.Type()) {
+				hasBool = true
+			}
+		}
+		eachInstr(f, func(in ssa.Instruction) {
+			if v, ok := in.(ssa.Value); ok {
+				if fld, _ := fieldOf(v); fld != nil && fld.Name() == "strict" {
+					readsStrict = true
+				}
+			}
+		})
+		if hasBool && readsStrict {
+			cands = append(cands, f)
+		}
+	}
+	if len(cands) == 0 {
+		if fn := p.anchorEnumBuiltInFilter(); fn != nil {
+			cands = append(cands, fn)
+		}
+	}
+	if len(cands) == 0 {
 		c.undecided("anchor|enum built-in filter", "-", "the ecolumn method that resolves a filter constant against the declared values was not found")
 		return
 	}
+	sortFuncs(cands)
+	anyConst := false
+	for _, fn := range cands {
+		if r46One(c, fn, len(cands) > 1) {
+			anyConst = true
+		}
+	}
+	if !anyConst {
+		c.bad(fname(cands[0])+"|constant not among declared values", p.pos(cands[0].Pos()), "no branch on the column's strict flag returns an error: filtering a strict (declared) enum against an undeclared value is silently accepted")
+	}
+}
+
+// r46One checks one function; it reports whether the function holds a strict branch whose strict side returns an
+// error directly (the single-constant decision). With several candidate functions a function without such a
+// branch is not reported on its own (the decision may live in its sibling).
+func r46One(c *Ctx, fn *ssa.Function, lenient bool) bool {
+	p := c.P
 	key := fname(fn) + "|constant not among declared values"
 	// (1) a branch on the strict flag whose true edge returns a non-nil error
 	type strictBranch struct {
@@ -1624,36 +1666,39 @@ func runR46(c *Ctx) {
 		}
 		allStrict = append(allStrict, strictBranch{iff, ti})
 	})
-	if len(strictIfs) == 0 {
+	if len(strictIfs) == 0 && !lenient {
 		c.bad(key, p.pos(fn.Pos()), "no branch on the column's strict flag returns an error: filtering a strict (declared) enum against an undeclared value is silently accepted")
-		return
+		return false
 	}
-	// (2) every write into the boolean index made by this function itself (the `!=` shortcut that marks
-	// all rows) happens only after the strict test failed
-	bad := ""
-	eachInstr(fn, func(in ssa.Instruction) {
-		st, ok := in.(*ssa.Store)
-		if !ok {
-			return
-		}
-		ia, ok := st.Addr.(*ssa.IndexAddr)
-		if !ok || !boolIdxBase(ia.X) {
-			return
-		}
-		okSt := false
-		for _, sb := range strictIfs {
-			if edgeDominates(sb.iff.Block(), 1-sb.ti, st.Block()) {
-				okSt = true
+	hasConst := len(strictIfs) > 0
+	if hasConst {
+		// (2) every write into the boolean index made by this function itself (the `!=` shortcut that marks
+		// all rows) happens only after the strict test failed
+		bad := ""
+		eachInstr(fn, func(in ssa.Instruction) {
+			st, ok := in.(*ssa.Store)
+			if !ok {
+				return
 			}
+			ia, ok := st.Addr.(*ssa.IndexAddr)
+			if !ok || !boolIdxBase(ia.X) {
+				return
+			}
+			okSt := false
+			for _, sb := range strictIfs {
+				if edgeDominates(sb.iff.Block(), 1-sb.ti, st.Block()) {
+					okSt = true
+				}
+			}
+			if !okSt {
+				bad = p.instrPos(st)
+			}
+		})
+		if bad != "" {
+			c.bad(key, p.instrPos(strictIfs[0].iff), fmt.Sprintf("the boolean index is written at %s on a path that has not passed the strict test: for a strict enum an undeclared filter value selects rows instead of being an error", bad))
+		} else {
+			c.ok(key, p.instrPos(strictIfs[0].iff), "strict columns return an error when the filter constant is not a declared value, before any row is marked")
 		}
-		if !okSt {
-			bad = p.instrPos(st)
-		}
-	})
-	if bad != "" {
-		c.bad(key, p.instrPos(strictIfs[0].iff), fmt.Sprintf("the boolean index is written at %s on a path that has not passed the strict test: for a strict enum an undeclared filter value selects rows instead of being an error", bad))
-	} else {
-		c.ok(key, p.instrPos(strictIfs[0].iff), "strict columns return an error when the filter constant is not a declared value, before any row is marked")
 	}
 	// (3) value lists (`in`): the case that receives a []string of constants consults the strict flag too - on
 	// every path of that case that can report success a branch on strict lies behind, and its strict side can
@@ -1721,6 +1766,7 @@ func runR46(c *Ctx) {
 			c.ok(lkey, p.instrPos(ta), "the value-list case consults the strict flag and can end in an error before reporting success")
 		}
 	})
+	return hasConst
 }
 
 // ---------- R18 ----------
